@@ -288,7 +288,7 @@ func main() {
 			if tier == "thorough" {
 				return driver.Plan{Random: 3000000, WallLimit: 20 * time.Minute}
 			}
-			return driver.Plan{Random: 150000, WallLimit: 5 * time.Minute}
+			return driver.Plan{Random: 300000, WallLimit: 5 * time.Minute}
 		},
 		RunOne: runOne,
 	})
